@@ -138,7 +138,33 @@ def uncopyable_case(eq, op):
     return isinstance(out, UsageError)
 
 
-GLB = {"after_case": after_case, "between_case": between_case, "dict_case": dict_case, "uncopyable_case": uncopyable_case, "__name__": "harness.c17"}
+WRAPS = {"bare": "{o}", "list": "[{o}]", "dict": "{{'a': {o}}}", "tuple": "({o}, 1)"}
+GOOD = {"bare": "x0", "list": "[x0]", "dict": "{'a': x0}", "tuple": "(x0, 1)"}
+
+
+def uncopyable_sequence_case(eq0, eq1, good_first, op, wrap, x0):
+    """the rejection is decided for every value on its own: a well-behaved value of the same outer type recorded
+    earlier in the session (or an earlier rejected one) does not change the verdict for a later value"""
+    world.reset({"Odd": Odd, "obj0": Odd(eq0, 0), "obj1": Odd(eq1, 1), "x0": x0})
+    def cmpx(v):
+        return {"==": f"snapshot() == {v}", "in": f"{v} in snapshot()", "[]": f"snapshot()[1] == {v}"}[op]
+    t = HEAD
+    if good_first:
+        t += f"def test_0():\n    assert {cmpx(GOOD[wrap])}\n\n\n"
+    t += f"def test_a():\n    assert {cmpx(WRAPS[wrap].format(o='obj0'))}\n\n\ndef test_b():\n    assert {cmpx(WRAPS[wrap].format(o='obj1'))}\n"
+    r = world.core_session(t, {"create"}, collect=False)
+    oa, ob = r.outcomes.get("test_a"), r.outcomes.get("test_b")
+    PathLog.record(f"oddseq{op}{wrap}{good_first}{type(oa).__name__}{type(ob).__name__}", nontrivial=True,
+                   sample={"operation": op, "wrapped_in": wrap, "good_value_first": bool(good_first), "deepcopy_equal": [bool(eq0), bool(eq1)], "outcomes": [type(o).__name__ if o != "passed" else "passed" for o in (oa, ob)]})
+    for eq, out in ((eq0, oa), (eq1, ob)):
+        if eq and isinstance(out, UsageError):
+            return False
+        if not eq and not isinstance(out, UsageError):
+            return False
+    return True
+
+
+GLB = {"uncopyable_sequence_case": uncopyable_sequence_case, "after_case": after_case, "between_case": between_case, "dict_case": dict_case, "uncopyable_case": uncopyable_case, "__name__": "harness.c17"}
 V3 = [("x0", "int"), ("x1", "int"), ("m0", "int")]
 VD3 = "{'x0': x0, 'x1': x1, 'm0': m0}"
 
@@ -187,6 +213,12 @@ def conditions(tier):
         name = f"uncopyable_{opn}"
         conds.append(Cond(name, mkfn(name, [("eq", "bool")], f"return uncopyable_case(eq, {op!r})", GLB), timeout=300, group="uncopyable",
                           bounds=f"a value whose deep copy compares equal / unequal (symbolic), used with `{op}`: UsageError exactly when unequal"))
+    for op, opn in (("==", "eq"), ("in", "in"), ("[]", "gi")):
+        for wrap in WRAPS:
+            name = f"uncopyable_seq_{opn}_{wrap}"
+            fn = mkfn(name, [("eq0", "bool"), ("eq1", "bool"), ("good_first", "bool"), ("x0", "int")], f"return uncopyable_sequence_case(eq0, eq1, good_first, {op!r}, {wrap!r}, x0)", GLB)
+            conds.append(Cond(name, fn, timeout=300, group="uncopyable",
+                              bounds=f"one session, up to three tests using `{op}`: optionally a well-behaved value `{GOOD[wrap]}` first, then two values `{WRAPS[wrap].format(o='obj')}` whose deep copies compare equal / unequal (symbolic): UsageError exactly for the unequal ones"))
     tw = mkfn("after_twin", V3, f"return after_case('==', 'append', '', {{'create'}}, {VD3})", GLB, post="not _")
     conds.append(Cond("after_twin", tw, timeout=60, twin=True))
     return conds
